@@ -11,6 +11,15 @@ using rkcommon::utility::Observable;
 using rkcommon::utility::Observer;
 using rkcommon::utility::TimeStamp;
 
+// operations carried out by code of another translation unit (c19b_sut.cpp): a program has more than one source file
+extern "C" {
+void c19b_fresh(TimeStamp *out);
+void c19b_renew(TimeStamp *t);
+void c19b_notify(Observable *o);
+int c19b_poll(Observer *o);
+Observer *c19b_new_observer(Observable *o);
+}
+
 namespace {
 
 void stamp_ops(int tid, const C19Op *ops, int n)
@@ -23,12 +32,19 @@ void stamp_ops(int tid, const C19Op *ops, int n)
     switch (op.kind) {
     case C19_S_FRESH:
       delete st[a];
-      st[a] = new TimeStamp();
+      if (i & 1) {  // created by code of the other source file
+        st[a] = static_cast<TimeStamp *>(::operator new(sizeof(TimeStamp)));
+        c19b_fresh(st[a]);
+      } else
+        st[a] = new TimeStamp();
       c19_stamp(tid, C19_S_FRESH, (size_t)*st[a], 0);
       break;
     case C19_S_RENEW:
       if (st[a]) {
-        st[a]->renew();
+        if (i & 1)
+          c19b_renew(st[a]);
+        else
+          st[a]->renew();
         c19_stamp(tid, C19_S_RENEW, (size_t)*st[a], 0);
       }
       break;
@@ -76,12 +92,13 @@ void stamp_ops(int tid, const C19Op *ops, int n)
 }  // namespace
 
 // the process-wide stamp counter (a private static member), reached through its linker symbol
-extern char rk_timestamp_global asm("_ZN8rkcommon7utility9TimeStamp6globalE");
+// (weak: a tree that keeps the counter elsewhere still links; the injection is then skipped)
+extern char rk_timestamp_global asm("_ZN8rkcommon7utility9TimeStamp6globalE") __attribute__((weak));
 
 extern "C" void c19_run()
 {
   const C19Plan *p = c19_plan();
-  if (p->fast_forward) {
+  if (p->fast_forward && &rk_timestamp_global) {
     // the state after 2^32-24 stamps have been handed out, without handing them out one by one
     if (sizeof(TimeStamp) == 8)
       *reinterpret_cast<volatile unsigned long long *>(&rk_timestamp_global) = (1ULL << 32) - 24;
@@ -115,9 +132,14 @@ extern "C" void c19_run()
       SimTag tag(SIM_TAG_SUT);
       switch (op.kind) {
       case C19_NEW_OBSERVABLE: oa[a] = new Observable(); break;
-      case C19_NEW_OBSERVER: ob[a] = new Observer(*oa[b]); break;
-      case C19_NOTIFY: oa[a]->notifyObservers(); break;
-      case C19_POLL: res = ob[a]->wasNotified() ? 1 : 0; break;
+      case C19_NEW_OBSERVER: ob[a] = (i % 3 == 1) ? c19b_new_observer(oa[b]) : new Observer(*oa[b]); break;
+      case C19_NOTIFY:
+        if (i % 3 == 2)
+          c19b_notify(oa[a]);
+        else
+          oa[a]->notifyObservers();
+        break;
+      case C19_POLL: res = (i & 1) ? c19b_poll(ob[a]) : (ob[a]->wasNotified() ? 1 : 0); break;
       case C19_DEL_OBSERVER:
         delete ob[a];
         ob[a] = nullptr;
